@@ -382,6 +382,18 @@ func collectTagCountsFromResolved(resolved *include.ResolvedJournal) map[string]
 	return counts
 }
 
+// DeclaredInResolved returns the accounts and commodities declared anywhere
+// in a resolved journal: the primary file and every file of its include tree.
+func DeclaredInResolved(resolved *include.ResolvedJournal) ExternalDeclarations {
+	if resolved == nil {
+		return ExternalDeclarations{}
+	}
+	return ExternalDeclarations{
+		Accounts:    collectDeclaredAccountsFromResolved(resolved),
+		Commodities: collectDeclaredCommoditiesFromResolved(resolved),
+	}
+}
+
 func collectDeclaredAccountsFromResolved(resolved *include.ResolvedJournal) map[string]bool {
 	declared := make(map[string]bool)
 	if resolved.Primary != nil {
